@@ -152,7 +152,7 @@ public:
             return;
         }
 
-        TbfParticleSorter<RealType> partSorter(inSpaceSystem, inParticlePositions);
+        TbfParticleSorter<RealType, SpaceIndexType> partSorter(inSpaceSystem, inParticlePositions);
         auto groups = partSorter.splitInGroups(partSorter.getNbLeaves());
         assert(std::size(groups) == 1);
 
